@@ -2,7 +2,7 @@
    a global layer mask info was read only if 17 bytes were readable in the rest of the whole FILE
    (`is_readable(fp, 17) and fp.tell() < end_pos`).  Kept as documentation of the refuted class
    (Properties/C01.v psd_roundtrip_refuted_before_f3a2729); not used by any check of the current tree. *)
-From PsdV Require Import Base.Prelude Psd.Codec Psd.Model.
+From PsdV Require Import Base.Prelude Psd.Codec Psd.Model Psd.Leaf.
 From Coq Require Import ZArith List Bool.
 Import ListNotations.
 Open Scope Z_scope.
@@ -29,3 +29,17 @@ Section Legacy.
     do img <- read_image_data s4;
     Ok (mkPSD h cmd rs l img).
 End Legacy.
+
+(* SectionDividerSetting.read as it was BEFORE /repo commit de58475 (finding F-C02-6, fixed): a sub type was read
+   whenever 4 bytes were left, also straight after the kind (4..7 stray bytes) where write() never puts one. *)
+Definition read_section_divider_v0 (s : stream) : res leaf :=
+  do (kind, s1) <- read_u 4 s;
+  if negb (memz kind model_section_dividers) then Err ValueErr else
+  do (sb, s2) <- (if is_readable 8 s1 then
+                    do (sg, a) <- read_u 4 s1;
+                    if negb (sg =? sig_8BIM) then Err AssertErr else
+                    do (b, a2) <- read_u 4 a;
+                    if negb (memz b model_blend_modes) then Err ValueErr else Ok (Some (sg, b), a2)
+                  else Ok (None, s1));
+  do (sub, _) <- r_opt (is_readable 4 s2) (read_u 4) s2;
+  Ok (LSectionDivider kind (option_map fst sb) (option_map snd sb) sub).
